@@ -1,0 +1,114 @@
+#ifndef SYMENGINE_VERIF_H
+#define SYMENGINE_VERIF_H
+
+// Instrumentation used only by external runtime monitors.
+// Nothing in this header is compiled unless SYMENGINE_VERIF is defined.
+#if defined(SYMENGINE_VERIF)
+
+#include <atomic>
+#include <cstdlib>
+#include <cstring>
+#include <exception>
+#include <mutex>
+#include <string>
+#include <vector>
+
+namespace SymEngine
+{
+namespace verif
+{
+
+// One failed SYMENGINE_ASSERT
+struct AssertEvent {
+    unsigned long seq;
+    std::string file;
+    int line;
+    std::string func;
+    std::string cond;
+};
+
+// Deliberately not derived from SymEngineException / std::exception so that
+// the library's own catch blocks do not swallow it by accident.
+struct AssertionFailure {
+    AssertEvent ev;
+};
+
+struct AssertLog {
+    std::mutex m;
+    unsigned long seq = 0;
+    std::vector<AssertEvent> events; // bounded ring (last 256)
+};
+
+inline AssertLog &assert_log()
+{
+    static AssertLog log;
+    return log;
+}
+
+// mode: 0 = record and throw (default), 1 = record and continue
+inline std::atomic<int> &assert_mode()
+{
+    static std::atomic<int> mode{-1};
+    return mode;
+}
+
+inline void assert_failed(const char *file, int line, const char *func,
+                          const char *cond)
+{
+    AssertEvent ev;
+    {
+        AssertLog &log = assert_log();
+        std::lock_guard<std::mutex> lk(log.m);
+        ev.seq = ++log.seq;
+        ev.file = file;
+        ev.line = line;
+        ev.func = func;
+        ev.cond = cond;
+        if (log.events.size() >= 256)
+            log.events.erase(log.events.begin());
+        log.events.push_back(ev);
+    }
+    int mode = assert_mode().load();
+    if (mode < 0) {
+        const char *e = std::getenv("SYMENGINE_VERIF_ASSERT");
+        mode = (e != nullptr and std::strcmp(e, "continue") == 0) ? 1 : 0;
+        assert_mode().store(mode);
+    }
+    if (mode == 0)
+        throw AssertionFailure{ev};
+}
+
+// Live-object accounting for Basic
+inline std::atomic<unsigned long> &basic_created()
+{
+    static std::atomic<unsigned long> n{0};
+    return n;
+}
+inline std::atomic<unsigned long> &basic_destroyed()
+{
+    static std::atomic<unsigned long> n{0};
+    return n;
+}
+
+// Schedule perturbation: the harness may install a function that is called
+// at points where another thread can genuinely interleave.
+typedef void (*yield_fn_t)(int site);
+inline std::atomic<yield_fn_t> &yield_fn()
+{
+    static std::atomic<yield_fn_t> fn{nullptr};
+    return fn;
+}
+inline void yield_point(int site)
+{
+    yield_fn_t f = yield_fn().load(std::memory_order_relaxed);
+    if (f != nullptr)
+        f(site);
+}
+
+} // namespace verif
+} // namespace SymEngine
+
+#define SYMENGINE_VERIF_YIELD(site) ::SymEngine::verif::yield_point(site)
+
+#endif // SYMENGINE_VERIF
+#endif // SYMENGINE_VERIF_H
